@@ -689,7 +689,9 @@ def oracle_tail(c: Dict[str, Any], r: Any) -> Optional[Dict[str, Any]]:
 class Check(PropertyCheck):
     id = 'C16'
     props_module = 'Props.C16'
-    models = {'lines': 'XLines.v', 'epy': 'XEpyLines.v'}
+    models = {'lines': 'XLines.v', 'epy': 'XEpyLines.v', 'ir': 'XLinesIR.v'}
+    needs_gen = True
+    gen_modules = ['gen_c16_code']
     rule = ('end-to-end: one module per (docformat x kind of docstring owner x planted problem x place x layout x offset k), '
             'distinct by construction of the generated source; non-trivial = a problem is planted and reported; '
             'unit: every text over {\\n,space,tab,a,\\x0c} up to the tier length, every msg() sequence up to length 2 over 32 calls, '
@@ -700,6 +702,10 @@ class Check(PropertyCheck):
         'extraction: ExtrOcamlBasic only; OCaml 4.13.1; coq/ocaml/driver.ml',
         'harness/c16.py generators + ground truth, harness/impl/c16_unit.py, harness/impl/c16_e2e.py',
         'Spec/CleanDoc.v (inspect.cleandoc, str.isspace/expandtabs/lstrip/split) -- validated against CPython on every run',
+        'harness/gen/gen_c16_code.py: fail-closed translator of the CURRENT source of Documentable.report, docutils.get_lineno and '
+        'epydoc2stan.reportErrors into the statement language of Model/LinesIR.v (Gen/LinesCode.v); primitives assumed: Python int '
+        'arithmetic = Z, str.find/index/in/count/slicing = Lines.find_sub/count_nl/firstn, f-string of int/str, or/and/not/is, '
+        'attribute reads of self / docutils nodes, System.msg defaults (pinned); the interpretation is also run against pydoctor',
         'modelled not verified: the line a parser attributes to a paragraph/item/field inside the cleaned docstring '
         '(epytext Token.startline, docutils node.line + get_lineno, napoleon) is observed end-to-end only; '
         'a docstring literal without \\n escapes / line continuations (value line j is physical line n0+j: checked with ast.parse on generated literals)',
@@ -710,7 +716,10 @@ class Check(PropertyCheck):
                  'whitespace-only lines longer than the margin, shift invariance of every reported line, the base+offset '
                  'arithmetic of parse errors / fields / cross-references, every msg() with negative threshold counted '
                  'exactly once unless suppressed by once, and the exit status rule. Tied to pydoctor by a correspondence '
-                 'check (unit level exhaustive small domains + end-to-end generated modules run through driver.main).'),
+                 'check (unit level exhaustive small domains + end-to-end generated modules run through driver.main). '
+                 'C16_code_report_is_model / C16_code_get_lineno_is_model / C16_code_report_errors_is_model: the bodies of '
+                 'Documentable.report, docutils.get_lineno and reportErrors are translated from the current source into a deep-embedded '
+                 'language on every run and proved equal to the model for all inputs.'),
         'note': ('Trusted: Coq kernel, extraction + OCaml driver, the Python harness and its ground truth, Spec/CleanDoc.v '
                  '(validated against CPython each run). Parser-internal line attribution is an oracle observed end to end.'),
         'technique': 'Coq proof + model/implementation correspondence + generator with ground truth',
@@ -796,6 +805,13 @@ class Check(PropertyCheck):
             for anc in ([], [['a\nb `x` c', 3]], [['', None], ['p\n\nq `x`', 5]], [['zzz', 2]], [[None, 7]], [['`x` first', 1], ['u\n`x`', 9]]):
                 cases.append({'op': 'getlineno', 'node_line': node_line, 'ref_raw': '`x`', 'ancestors': anc})
         cases.append({'op': 'getlineno', 'node_line': None, 'ref_raw': '', 'ancestors': [['a\nb', 3]]})
+        for _ in range(150 if quick else 5000):
+            ref = rng.choice(['`x`', '`x`', 'ab', '', 'b\n`x`'])
+            anc = []
+            for _ in range(rng.randint(0, 4)):
+                raw = rng.choice([None, '', 'a\nb `x` c', '`x`', 'p\n\nq\n`x` ab', 'zzz', 'ab\n' * rng.randint(0, 3) + ref])
+                anc.append([raw, rng.choice([None, None, 0, 1, 2, 7])])
+            cases.append({'op': 'getlineno', 'node_line': rng.choice([None, None, None, 0, 5]), 'ref_raw': ref, 'ancestors': anc})
         rdocs = [('Text.\n\n:param a: the a\n:returns: x\n    more\n:note: n', [3, 4, 6]),
                  ('T\n\n:Parameters:\n    - `a`: the a.\n    - `b`: the b\n      more\n', [4, 5]),
                  ('T\n\n:Parameters:\n    a : int\n        the a\n    b\n        bb\n', [4, 4, 6]),
@@ -867,6 +883,19 @@ class Check(PropertyCheck):
             return enc([8, [] if c['line'] is None else [c['line']]])
         return None
 
+    def ir_input(self, c: Dict[str, Any]) -> Optional[str]:
+        """the same case for the interpreter of the code translated from the current source (Gen/LinesCode.v)"""
+        op = c['op']
+        if op == 'report':
+            return enc([0, c['verbosity'], c['section'], c['ds'], c['ln'], c['off'], c['is_module'], c['description'], c['descr'], c['thresh']])
+        if op == 'getlineno':
+            chain = [[c['node_line'] or 0, c['ref_raw'] or '']] + [[line or 0, raw or ''] for raw, line in c['ancestors']]
+            return enc([1, chain])
+        if op == 'reperrs':
+            errs = [[d, ([] if st is None else [st])] for d, st in c['errs']]
+            return enc([2, c['verbosity'], c['section'], c['obj'], c['pre'], errs])
+        return None
+
     def compare_unit(self, c: Dict[str, Any], r: Any, m: Any) -> Optional[Tuple[Any, Any]]:
         """-> (model canonical, impl canonical) when they differ."""
         op = c['op']
@@ -914,6 +943,18 @@ class Check(PropertyCheck):
         mouts = self.model('lines', [self.model_input(cases[i]) for i in idx])
         mod: Dict[int, Any] = {i: dec(o) for i, o in zip(idx, mouts)}
         self.evaluations += len(cases)
+        iidx = [i for i, c in enumerate(cases) if self.ir_input(c) is not None]
+        irouts = self.model('ir', [self.ir_input(cases[i]) for i in iidx])
+        nir = 0
+        for i, o in zip(iidx, irouts):
+            self.count('unit_ir_leg')
+            d = self.compare_unit(cases[i], impl[i], dec(o))
+            if d is not None:
+                nir += 1
+                if nir <= 10:
+                    out.append(Violation('correspondence', 'the interpretation of the code translated from the source (Gen/LinesCode.v) '
+                                         'and pydoctor disagree (unit op %s): the translator or the statement language misrepresents '
+                                         'the source' % cases[i]['op'], case=cases[i], expected=d[0], observed=d[1]))
         eidx = [i for i, c in enumerate(cases) if c['op'] == 'epytok' and not isinstance(impl[i], dict)]
         emouts = self.model('epy', [enc(impl[i][0]) for i in eidx])
         for i, o in zip(eidx, emouts):
